@@ -232,6 +232,9 @@ class Ace(AceBase):
         protocol_o.has_port = bool(self._srcport.line or self._dstport.line)
         self._protocol = protocol_o
         self._option = Option(ace_d["option"], platform=self._platform, version=self.version)
+        if self._type == "standard" and self._option.flags:
+            flags = self._option.flags
+            raise ValueError(f"invalid {line=}, standard ACE does not support options {flags=}")
 
     @property
     def option(self) -> Option:
